@@ -79,6 +79,61 @@ def replay_removeoverlaps(job, obl, inputs, workdir):
     return rc == 1, out
 
 
+REPLAY_FRAMES = r'''
+// Native replay for the A* pruning symmetry obligation: small orthogonal routing scenes with direction-restricted
+// free-floating end points, routed in all eight frames (rotations/reflections of the whole scene, direction flags mapped
+// along); length + 50 x bends must not depend on the frame.
+#include "libavoid/libavoid.h"
+#include <cstdio>
+#include <cmath>
+using namespace Avoid;
+static const int M[8][4] = {{1,0,0,1},{0,-1,1,0},{-1,0,0,-1},{0,1,-1,0},{-1,0,0,1},{1,0,0,-1},{0,1,1,0},{0,-1,-1,0}};
+static Point tp(int f, double x, double y) { return Point(M[f][0] * x + M[f][1] * y, M[f][2] * x + M[f][3] * y); }
+static ConnDirFlags td(int f, ConnDirFlags d) {
+  if (d == ConnDirAll || d == ConnDirNone) return d;
+  ConnDirFlags out = 0;
+  const ConnDirFlags dirs[4] = {ConnDirUp, ConnDirDown, ConnDirLeft, ConnDirRight}; const int vx[4] = {0, 0, -1, 1}, vy[4] = {-1, 1, 0, 0};
+  for (int k = 0; k < 4; ++k) if (d & dirs[k]) { Point v = tp(f, vx[k], vy[k]);
+    out |= (v.x > 0.5) ? ConnDirRight : (v.x < -0.5) ? ConnDirLeft : (v.y > 0.5) ? ConnDirDown : ConnDirUp; }
+  return out;
+}
+struct Scene { int nshapes; double sh[2][4]; double sx, sy; ConnDirFlags sd; double tx, ty; ConnDirFlags tdir; const char *name; };
+static double cost(const Scene &S, int f) {
+  Router router(OrthogonalRouting); router.setRoutingParameter(segmentPenalty, 50);
+  for (int i = 0; i < S.nshapes; ++i) { Point a = tp(f, S.sh[i][0], S.sh[i][1]), b = tp(f, S.sh[i][2], S.sh[i][3]);
+    Rectangle rect(Point(std::min(a.x, b.x), std::min(a.y, b.y)), Point(std::max(a.x, b.x), std::max(a.y, b.y))); new ShapeRef(&router, rect); }
+  ConnRef *c = new ConnRef(&router, ConnEnd(tp(f, S.sx, S.sy), td(f, S.sd)), ConnEnd(tp(f, S.tx, S.ty), td(f, S.tdir)));
+  router.processTransaction();
+  const PolyLine &r = c->displayRoute(); double len = 0; for (size_t i = 1; i < r.size(); ++i) len += fabs(r.ps[i].x - r.ps[i-1].x) + fabs(r.ps[i].y - r.ps[i-1].y);
+  return len + 50.0 * (r.size() >= 2 ? (double)(r.size() - 2) : 0.0);
+}
+int main() {
+  const Scene scenes[] = {
+    {1, {{29,10,39,17},{0,0,0,0}}, 18, 23, ConnDirRight, 10, 35, ConnDirAll, "one obstacle, source leaves to the right"},
+    {1, {{29,10,39,17},{0,0,0,0}}, 18, 23, ConnDirDown, 40, 30, ConnDirAll, "one obstacle, source leaves downwards"},
+    {2, {{-10,-10,-4,6},{14,0,24,12}}, 0, 20, ConnDirAll, 6, 10, ConnDirUp, "two shapes, target entered from above"},
+    {2, {{-10,-10,-4,6},{14,0,24,12}}, 0, 20, ConnDirLeft, 30, -4, ConnDirAll, "two shapes, source leaves to the left"},
+  };
+  int bad = 0;
+  for (size_t s = 0; s < sizeof(scenes) / sizeof(scenes[0]); ++s) {
+    double c0 = cost(scenes[s], 0);
+    for (int f = 1; f < 8; ++f) { double cf = cost(scenes[s], f);
+      if (fabs(cf - c0) > 1e-6) { printf("scene '%s': cost %g in the original frame, %g in frame %d\n", scenes[s].name, c0, cf, f); bad++; break; } }
+  }
+  if (bad) { printf("REPRODUCED: route cost depends on the frame\n"); return 1; }
+  printf("not reproduced by the replay scenes\n"); return 0;
+}
+'''
+
+
+def replay_frames(job, obl, inputs, workdir):
+    lib = build_lib("libavoid", workdir)
+    rc, out = native_run(REPLAY_FRAMES, workdir, "replay_frames", extra=["-I", COLA], libs=[lib], timeout=300)
+    if rc is None:
+        return False, out
+    return rc == 1, out
+
+
 def jobs(tier):
     js = []
     c01 = _c01()
@@ -153,6 +208,35 @@ def jobs(tier):
                   cxx=base + pr_tu + 'extern "C" double w_getNext(void *r) { return ((cola::PseudoRandom *)r)->getNext(); }\n',
                   enforce="w_getNext", defines=["JOB_getNext"], flags=["--sat-solver", "cadical"], backend="sat:cadical", slices=[S["getnext"], S["prclass"]], domain="every seed (2^32)",
                   expect=[r'postcondition']))
+    # ---------------- A* orthogonal turn pruning: transposition symmetry (two calls of the real fragment)
+    srch = slice_func(MP, r'^void AStarPathPrivate::search\(ConnRef \*lineRef, VertInf \*src, VertInf \*tar, VertInf \*start\)', "AStarPathPrivate::search")
+    prune = fragment_between(srch, r'if \(isOrthogonal && !\(\*edge\)->isDummyConnection\(\)\)\s*\{\s*// Orthogonal routing optimisation',
+                             r'double edgeDist = \(\*edge\)->getDist\(\);', "AStarPathPrivate::search [orthogonal turn-pruning block]", allow_continue=True)
+    ptext = subst(prune, [(r'!\(\*edge\)->isDummyConnection\(\)', '!verif_isDummy', 1), (r'\bcontinue;', 'return true;', 4)])
+    pawo = slice_func(MP, r'^static inline bool pointAlignedWithOneOf\(const Point& point,', "pointAlignedWithOneOf")
+    flags_ = slice_lines("libavoid/vertices.h", r'^static const unsigned int [XY][LH]_(EDGE|CONN) = \d+;', 8, "orthogonal visibility flags")
+    dims = slice_lines("libavoid/geomtypes.h", r'^static const size_t [XY]DIM = \d;', 2, "XDIM/YDIM")
+    gt = "libavoid/geomtypes.cpp"
+    idx1 = slice_func(gt, r'^double& Point::operator\[\]\(const size_t dimension\)', "Point::operator[]")
+    idx2 = slice_func(gt, r'^const double& Point::operator\[\]\(const size_t dimension\) const', "Point::operator[] const")
+    rw = [(r'return \(\(dimension == 0\) \? x : y\);', 'if (dimension == 0) return x; return y;', 1)]
+    pt_pre, vi_pre = prelude("avoid_geomtypes.h"), prelude("avoid_vertinf.h")
+    layout.check_layout("avoid_vertinf", pt_pre + vi_pre, ["libavoid/vertices.h"],
+                        [("Avoid::VertInf", ["_router", "id", "point", "lstPrev", "shNext", "visList", "visListSize", "orthogVisList", "invisList", "pathNext",
+                                             "m_orthogonalPartner", "m_treeRoot", "sptfDist", "visDirections", "aStarDoneNodes", "aStarPendingNodes", "orthogVisPropFlags"]),
+                         ("Avoid::VertID", ["objID", "vn", "props"])], sizes=["Avoid::VertInf", "Avoid::VertID"])
+    prune_cxx = (base + "#include <vector>\n" + pt_pre + vi_pre + "namespace Avoid {\n" + dims.text + "\n" + flags_.text + "\n" +
+                 subst(idx1, rw) + "\n" + subst(idx2, rw) + "\n" + S["anode"].text + "\n" + pawo.text + "\n"
+                 "// the fragment as a predicate: `continue` (edge pruned) -> return true; its free variables become parameters with the types they have in search()\n"
+                 "static bool verif_prune(bool isOrthogonal, bool verif_isDummy, VertInf *bestNodeInf, ANode& node, VertInf *prevInf, VertInf *src, std::vector<Point>& endPoints)\n{\n" +
+                 ptext + "\n    return false;\n}\n}\n"
+                 'extern "C" bool w_prune(bool isOrthogonal, bool isDummy, void *best, void *next, void *prev, void *src, void *endPoints) {\n'
+                 '  Avoid::ANode node; node.inf = (Avoid::VertInf *)next;\n'
+                 '  return Avoid::verif_prune(isOrthogonal, isDummy, (Avoid::VertInf *)best, node, (Avoid::VertInf *)prev, (Avoid::VertInf *)src, *(std::vector<Avoid::Point> *)endPoints); }\n')
+    js.append(Job("astar_pruning_transpose_symmetry", "U", spec, "h_prune_symmetry", cxx=prune_cxx, defines=["JOB_prune_symmetry"], replay=replay_frames,
+                  slices=[srch, prune, pawo], unwind=4, flags=["--object-bits", "10"],
+                  domain="every search state: all doubles as coordinates, all flag words, with and without a previous vertex, 0-2 end points; the state and its transpose",
+                  expect=[r'h_prune_symmetry\.assertion']))
     return js
 
 
